@@ -50,6 +50,9 @@ Accepted subset (anything else raises TranslateError with file:line):
               local set of strings; pcfg_parser.count_X.clear() / = Counter() / = {}; calls of
               collaborators as statements; if / elif / else (`if x is None`, truth tests of bools, of
               None-or-strings, of what run_trainer returns); `if c: ..; continue` directly in a loop body;
+              a call of a helper whose whole body prints (`def _print_status(n): if ..: print(..)`) is dropped like
+              a print; `for i, x in enumerate(obj.read_password()[, start=k])` where i feeds prints only is the
+              loop over obj.read_password();
               a helper `def h(..): return <expression>` (at module level of run_trainer.py or directly in the
               body of run_trainer; constant defaults, pure arguments) is inlined where it is called;
               for x in obj.read_password(): body (body: no world access, no use of obj); try: .. except
@@ -244,9 +247,18 @@ def read_signature(repo, src, params):
 class Dead:
     """statements that only print, and the local variables that only feed them"""
 
-    def __init__(self, fn):
+    def __init__(self, fn, helpers=None, depth=0):
         self.fn = fn
+        self.helpers = helpers or {}     # module-level / nested defs that may turn out to print only
+        self.depth = depth
+        self._print_only = {}
         assigned = {}
+        for n in ast.walk(fn):
+            # for i, x in enumerate(..): the index is a candidate (it is dropped when only prints read it)
+            if isinstance(n, ast.For) and isinstance(n.iter, ast.Call) and isinstance(n.iter.func, ast.Name) \
+                    and n.iter.func.id == "enumerate" and isinstance(n.target, ast.Tuple) and len(n.target.elts) == 2 \
+                    and isinstance(n.target.elts[0], ast.Name):
+                assigned.setdefault(n.target.elts[0].id, [])
         for n in ast.walk(fn):
             if isinstance(n, ast.Assign) and len(n.targets) == 1 and isinstance(n.targets[0], ast.Name):
                 assigned.setdefault(n.targets[0].id, []).append(n.value)
@@ -296,6 +308,32 @@ class Dead:
             return isinstance(e.func, ast.Name) and e.func.id in PURE_FUNCS and not e.keywords and all(self.pure(a) for a in e.args)
         return False
 
+    def prints_only(self, name):
+        """a helper def whose whole body is prints (of its parameters and constants): a call of it with pure arguments
+        is dropped like a print"""
+        if name not in self.helpers or self.depth > 3:
+            return False
+        if name not in self._print_only:
+            self._print_only[name] = False        # a recursive helper does not qualify
+            h = self.helpers[name]
+            a = h.args
+            ok = not (a.vararg or a.kwarg or a.kwonlyargs or a.posonlyargs or h.decorator_list) and \
+                all(isinstance(d, ast.Constant) for d in a.defaults)
+            if ok:
+                d = Dead(h, {k: v for k, v in self.helpers.items() if k != name}, self.depth + 1)
+                body = [x for x in h.body]
+                ok = all(d.droppable(x) or (isinstance(x, ast.Return) and (x.value is None or
+                         (isinstance(x.value, ast.Constant) and x.value.value is None)) and x is h.body[-1]) for x in body)
+                # nothing but the parameters, the locals it only prints and builtins may be read
+                names = {x.arg for x in a.args} | d.vars | {"print", "str", "int", "len", "repr", "float"}
+                for n in ast.walk(h):
+                    if isinstance(n, ast.Name) and n.id not in names:
+                        ok = False
+                    if isinstance(n, (ast.Global, ast.Nonlocal, ast.Attribute, ast.Subscript)):
+                        ok = False
+            self._print_only[name] = ok
+        return self._print_only[name]
+
     def droppable(self, s):
         if isinstance(s, ast.Pass):
             return True
@@ -305,6 +343,8 @@ class Dead:
             c = s.value
             if isinstance(c, ast.Call) and dotted(c.func) in DROPPED_CALLS:
                 return all(self.pure(a) for a in c.args) and all(self.pure(k.value) or dotted(k.value) == ("sys", "stdout") for k in c.keywords)
+            if isinstance(c, ast.Call) and isinstance(c.func, ast.Name) and self.prints_only(c.func.id):
+                return all(self.pure(a) for a in c.args) and all(k.arg is not None and self.pure(k.value) for k in c.keywords)
             return False
         if isinstance(s, ast.If):
             return self.pure(s.test) and all(self.droppable(x) for x in s.body + s.orelse)
@@ -364,7 +404,7 @@ class FnTr:
         self.world = world          # the function threads a world (WM) / is pure (out)
         self.ret = ret              # "obool" (run_trainer), "bool+pinfo" (parse_command_line), "unit" (main)
         self.cvar = cvar            # Coq name of the collaborator record
-        self.dead = Dead(fn)
+        self.dead = Dead(fn)        # replaced by the driver when the module has helper defs
         self.uid = 0
         self.pending = []
         self.pure_depth = 0         # > 0 inside a loop body (no world)
@@ -1030,13 +1070,23 @@ class FnTr:
     def for_(self, s, env, ind, go_on):
         if s.orelse:
             self.fail(s, "for ... else")
-        it = s.iter
+        it, target = s.iter, s.target
+        # for i, x in enumerate(obj.read_password()[, start]): i may only feed prints
+        if isinstance(it, ast.Call) and isinstance(it.func, ast.Name) and it.func.id == "enumerate" and "enumerate" not in env.types \
+                and isinstance(target, ast.Tuple) and len(target.elts) == 2 and all(isinstance(x, ast.Name) for x in target.elts):
+            rest = list(it.args[1:]) + [k.value for k in it.keywords]
+            if len(it.args) < 1 or len(rest) > 1 or any(k.arg != "start" for k in it.keywords) or \
+                    not all(isinstance(x, ast.Constant) and isinstance(x.value, int) and not isinstance(x.value, bool) for x in rest):
+                self.fail(s, "unsupported arguments of enumerate")
+            if target.elts[0].id not in self.dead.vars or target.elts[0].id in env.types:
+                self.fail(s, "the index of enumerate is used outside print statements")
+            it, target = it.args[0], target.elts[1]
         if not (isinstance(it, ast.Call) and isinstance(it.func, ast.Attribute) and isinstance(it.func.value, ast.Name)
                 and (env.types.get(it.func.value.id), it.func.attr) in GENERATORS and not it.args and not it.keywords):
             self.fail(s, "a loop over something else than obj.read_password()")
         if self.pure_depth or not self.world:
             self.fail(s, "a nested reader loop")
-        if not isinstance(s.target, ast.Name):
+        if not isinstance(target, ast.Name):
             self.fail(s, "loop target")
         obj = it.func.value.id
         if obj in env.captured:
@@ -1046,7 +1096,7 @@ class FnTr:
         carried = self.state(carried, env)
         val, binder = self.tuple_text(carried)
         inner = env.copy()
-        x = self.bind_var(s, s.target.id, g["elem"], inner)
+        x = self.bind_var(s, target.id, g["elem"], inner)
 
         def fin(env2, ind2):
             return self.line(ind2, "Norm %s" % val)
@@ -1202,6 +1252,7 @@ def render_run_trainer(repo):
             raise TranslateError("%s:%d: nested definition" % (path, n.lineno))
     tr = FnTr(repo, path, rel, fn, COLLAB, True, "obool", "C")
     tr.helpers = {n: d for n, d in defs.items() if n != "run_trainer"}
+    tr.dead = Dead(fn, tr.helpers)
     for n in ast.walk(tree):
         if isinstance(n, ast.Name) and isinstance(n.ctx, (ast.Store, ast.Del)) and n.id in defs:
             raise TranslateError("%s:%d: %s is rebound" % (path, n.lineno, n.id))
